@@ -82,6 +82,29 @@ fn check_aligned<T: lightmotif::dense::MatrixElement, C: lightmotif::num::ArrayL
     }
 }
 
+/// Every cell of a striped sequence - the cells past the end of the sequence and the look-ahead rows included - is
+/// read by the kernels as a symbol and used as an index into a row of the scoring matrix (`vgatherdps`, `vpermps`,
+/// `pshufb`: look-ups the sanitizer does not instrument), so every cell has to hold a symbol of the alphabet. Memory
+/// the library never wrote shows up as 0xBE under AddressSanitizer (its fill for fresh blocks up to 4 KiB) and as
+/// 0xAA under the guard allocator.
+fn check_symbols<A: Alphabet, C: lightmotif::num::PositiveLength>(what: &str, s: &StripedSequence<A, C>) {
+    if std::mem::size_of::<A::Symbol>() != 1 {
+        return;
+    }
+    let k = A::symbols().len();
+    let m = s.matrix();
+    for i in 0..m.rows() {
+        let row = &m[i];
+        for j in 0..row.len() {
+            let byte = unsafe { *(&row[j] as *const A::Symbol as *const u8) };
+            if byte as usize >= k {
+                eprintln!("C06: {} cell (row {}, column {}) holds byte {:#x}, not a symbol of the alphabet: uninitialised or foreign memory that the scoring kernels will use as an index", what, i, j, byte);
+                std::process::abort();
+            }
+        }
+    }
+}
+
 #[derive(Default)]
 struct Stats {
     ops: Vec<&'static str>,
@@ -209,6 +232,8 @@ where
                     w.touched = true;
                     check_aligned("striped sequence", w.striped.matrix());
                     check_aligned("striped sequence (16)", w.striped16.matrix());
+                    check_symbols("striped sequence", &w.striped);
+                    check_symbols("striped sequence (16)", &w.striped16);
                 }
                 // --- wrap rows
                 4 => {
@@ -297,6 +322,7 @@ where
                     stats.ops.push("clone");
                     w.touched = true;
                     check_aligned("cloned striped sequence", w.striped.matrix());
+                    check_symbols("cloned striped sequence", &w.striped);
                     check_aligned("cloned scores", w.scores.matrix());
                 }
                 // --- dense matrix life cycle
@@ -340,6 +366,7 @@ where
                     let seed = u.arbitrary::<u64>().unwrap_or(1);
                     let s: StripedSequence<A, U32> = StripedSequence::sample(StdRng::seed_from_u64(seed), Background::uniform(), len);
                     check_aligned("sampled sequence", s.matrix());
+                    check_symbols("sampled sequence", &s);
                     let e = EncodedSequence::<A>::sample(StdRng::seed_from_u64(seed), Background::uniform(), len);
                     w.enc = e.iter().cloned().collect();
                     if arg & 1 == 1 {
